@@ -51,7 +51,7 @@ CHECKS = {
              "of each database; queries: all present names/ids/indices, an absent name in every gap, below/above the ends, "
              "prefixes, extensions, absent names constructed to have the djb2 hash of a present name, id+-1, 0, 0xFFFFFFFF, indices beyond the end, plus Hypothesis-drawn byte strings; through "
              "indexForZoneName/Id and createForZoneName/Id/Index. Exact agreement with a linear scan; 1 s per-lookup hang bound; "
-             "sanitizers report reads outside the registry; plus Hypothesis-drawn histories of 6..30 lookups (incl. createForZoneInfo outside the registry and immediate repeats) over 2..3 registries living in one fresh process.",
+             "sanitizers report reads outside the registry; registries listed in ascending zone-id order; plus Hypothesis-drawn histories of 6..30 lookups (incl. createForZoneInfo outside the registry and immediate repeats) over 2..3 registries living in one fresh process.",
         note="No duplicate entries are generated; sizes above 40 only via the full registries.",
         design="2/C10"),
     "C11": dict(
@@ -94,7 +94,7 @@ CHECKS = {
     "C03": dict(
         technique="differential testing against an independent compiler (zic) over five source corpora (reconstructed, real 2025b, names, 576 enumerated era-boundary x rule sources, Hypothesis grammar); accounting invariant over the transformer output",
         text="Corpora: source reconstructed from the shipped tables, the vendored real 2025b release (443 zones; expansion validated "
-             "against zic on the original), a 'names' source (duplicate normalised names, links to removed zones), 658 extended / 130 basic enumerated sources (hemisphere x next-era kind x STDOFF step x UNTIL form x AT suffix, era boundaries +-2 h / +-5 h around rule transitions in u/s/w, policies that start or stop around the era change, one-off extra rules in the month of a regular rule, January rules at an era change, weekday UNTIL forms) and Hypothesis-generated small sources (both scopes, varying year ranges). For every "
+             "against zic on the original), a 'names' source (duplicate normalised names, links to removed zones), about 830 extended / 175 basic enumerated sources (hemisphere x next-era kind x STDOFF step x UNTIL form x AT suffix, era boundaries +-2 h / +-5 h around rule transitions in u/s/w, policies that start or stop around the era change, one-off extra rules in the month of a regular rule, January / December rules at an era change, month-end rules next to an era start, 3..5 transitions a year, policies starting around the first database year, weekday UNTIL forms); capacity probes (six transitions a year, seven eras a year) and Hypothesis-generated small sources (both scopes, varying year ranges). For every "
              "(source, scope): tzcompiler.py -> generated C++ tables compiled into the sweep driver (path A: 300 s stride + per-second "
              "windows at every oracle transition + field probes; thorough 60 s) and Extractor->Transformer->InlineGenerator->"
              "ZoneSpecifier in-process (path P) must equal zic's function over [start_year, until_year); every input zone/link/policy is "
@@ -142,7 +142,7 @@ CHECKS = {
              "domain arguments give the documented error value twice. Exhaustive length<=4 sequences over {valid, below, above, "
              "sentinel} x {off, delta, abbrev, odt, print} vs a fresh processor for sampled (thorough: all) zones. Clause (c): per "
              "zone and year 1999..2050 the pool high-water is below the recorded size and the capacity and the basic drop counter is 0, "
-             "on shipped and regenerated tables (C03 adds the 2025b and generated sources).",
+             "and all three accessors run without a sanitizer report, on shipped, regenerated and ~1,000 enumerated compiler-generated zones (C03 adds the 2025b and Hypothesis-generated sources).",
         note="14 signed-overflow sites at the int32 representability limits are listed as known findings (keyed kind@File:function). "
              "Out-of-range oracle allows one year of slack around the accepted window 1999..2050.",
         design="2/C09"),
